@@ -110,6 +110,9 @@ func (ic *Credential) CreateDisclosureProof(
 	nonrev bool,
 	context, nonce1 *big.Int,
 ) (*ProofD, error) {
+	if context == nil || nonce1 == nil {
+		return nil, errors.New("missing context or nonce")
+	}
 	builder, err := ic.CreateDisclosureProofBuilder(disclosedAttributes, rangeStatements, nonrev)
 	if err != nil {
 		return nil, err
@@ -311,6 +314,9 @@ func (d *DisclosureProofBuilder) Commit(randomizers map[string]*big.Int) ([]*big
 	}
 	z := big.NewInt(1)
 	if d.proofPcomm != nil {
+		if d.proofPcomm.Pcommit == nil {
+			return nil, errors.New("incomplete keyshare commitment")
+		}
 		z.Set(d.proofPcomm.Pcommit)
 	}
 	z.Mul(z, Ae).Mul(z, Sv).Mod(z, d.pk.N)
